@@ -3,7 +3,7 @@
 From Coq Require Import List String NArith Bool Permutation.
 From PDT Require Import Model.Dtype Model.Conv Model.Universe Model.Signature Model.Resolve
      Model.Enum Model.OverloadChecks Proofs.Overload Proofs.OverloadEnumA Proofs.OverloadEnumB
-     Proofs.OverloadEnumC Proofs.OverloadEnumD.
+     Proofs.OverloadEnumC Proofs.OverloadEnumD Model.Typing Model.Lca Proofs.LcaLemmas.
 From PDTGen Require Import Catalogue ConvTable.
 Import ListNotations.
 
@@ -74,6 +74,41 @@ Theorem const_param_rejects_column_refuted :
   accepted Op_shift [TS SInt64; TConst (TS SInt64); TS SInt64] = Some (TS SInt64).
 Proof. exact constparam_refuted_witness. Qed.
 Print Assumptions const_param_rejects_column_refuted.
+
+(* 8. lca_type (the common type of case branches, list literals and union column pairs), List types included
+      (Model/Lca.lca_l transcribes tree/types.py lca_type).  The List rule for ANY arity, nesting depth and element
+      types; a List meeting a non-List is DataTypeError in either order (the real code raised KeyError /
+      AttributeError before fix bd3c03b); and over the finite universes LU (48 types: scalars, lists, lists of
+      lists, const) for pairs and LU3 (21 types) for triples - the bound is in the statement - the result does not
+      depend on argument order and is never an internal error. *)
+Theorem lca_of_lists : forall f t ts,
+  lca_l (S f) (map TList (t :: ts)) = tbind (lca_l f (t :: ts)) (fun x => TOk (TList x)).
+Proof. exact lca_of_lists_proof. Qed.
+Print Assumptions lca_of_lists.
+
+Theorem lca_list_with_scalar_is_datatype_error : forall f a b,
+  is_list (without_const b) = false -> is_nulltype (without_const b) = false ->
+  lca_l f [TList a; b] = TErr EDataType /\ lca_l f [b; TList a] = TErr EDataType.
+Proof. exact lca_list_with_scalar_proof. Qed.
+Print Assumptions lca_list_with_scalar_is_datatype_error.
+
+Theorem lca_pairs_order_independent_total_LU : forall a b, In a LU -> In b LU ->
+  tres_dtype_eqb (lca_l 3 [a; b]) (lca_l 3 [b; a]) = true /\ not_internal (lca_l 3 [a; b]) = true.
+Proof. exact lca_pairs_proof. Qed.
+Print Assumptions lca_pairs_order_independent_total_LU.
+
+Theorem lca_triples_order_independent_total_LU3 : forall a b c, In a LU3 -> In b LU3 -> In c LU3 ->
+  tres_dtype_eqb (lca_l 3 [a; b; c]) (lca_l 3 [b; a; c]) = true
+  /\ tres_dtype_eqb (lca_l 3 [a; b; c]) (lca_l 3 [c; a; b]) = true
+  /\ not_internal (lca_l 3 [a; b; c]) = true.
+Proof. exact lca_triples_proof. Qed.
+Print Assumptions lca_triples_order_independent_total_LU3.
+
+Example lca_example :
+  lca_l 3 [TList (TList (TS SUInt8)); TList (TList (TS SInt16))] = TOk (TList (TList (TS SInt)))
+  /\ lca_l 3 [TList (TStr (Some 5%N)); TList (TStr (Some 20%N))] = TOk (TList (TStr None))
+  /\ lca_l 3 [TS SInt64; TList (TS SInt64)] = TErr EDataType.
+Proof. vm_compute. repeat split; reflexivity. Qed.
 
 (* non-vacuity *)
 Example enum_is_nontrivial :
